@@ -28,9 +28,9 @@ META = {
                   "(recorded random inputs up to 200 lines, lines below bufio.MaxScanTokenSize) beyond it.",
 }
 
-KINDS8 = '{"ok1", "ok2", "empty", "comment", "nohosts", "badaddr", "badname", "okcr"}'
-KINDS6 = '{"ok1", "ok2", "empty", "nohosts", "badname", "okcr"}'
-KINDS4 = '{"ok1", "empty", "badname", "okcr"}'
+KINDS8 = '{"ok1", "ok2", "empty", "comment", "nohosts", "badaddr", "badname", "okcr", "bom"}'
+KINDS6 = '{"ok1", "ok2", "empty", "bom", "badname", "okcr"}'
+KINDS4 = '{"ok1", "empty", "bom"}'
 KINDS3 = '{"ok1", "empty", "badname"}'
 
 ST_INV = ["TypeOK", "NoDuplicates", "NoEmptyEntries", "IndexesAgree", "CaseInsensitive", "ImplRefines", "EqualSane",
@@ -52,7 +52,7 @@ def run(ctx):
                 "predicts, replayed under the fragmentation family x {named, plain reader} x {HandleSet, plain Set, "
                 "DefaultStorage}; G-storage: every Add path to the depth bound (+ pairs of paths for Equal) with predicted "
                 "maps, replayed under 6 concretisations (half of them through one reused, overwritten names buffer with "
-                "retained query results re-verified); G-readers: every split of short Add paths over 2..3 readers (one may "
+                "retained query results re-verified); G-sessions: sequences of Parse calls in one process, the first with a reader failure or a panicking Add; G-readers: every split of short Add paths over 2..3 readers (one may "
                 "fail) through NewDefaultStorage, order-sensitive ones also with a slow first reader; T: random multi-line inputs with random fragmentation and random "
                 "storage histories validated by HostsTrace.tla / HostsStorageTrace.tla. "
                 "distinct_nontrivial = distinct non-empty sources + distinct non-empty Add paths replayed")
@@ -66,6 +66,10 @@ def run(ctx):
         "caller memory: records are also built in one reused names buffer that is overwritten after every Add; Add must "
         "not write to rec / rec.Names (incl. spare capacity); slices returned by ByAddr / ByName are not documented as "
         "copies, so only the elements already returned must never change (later Adds may append)",
+        "faults: a reader failing with a non-EOF error (at a line boundary) makes Parse return an error wrapping it after "
+        "delivering the lines read so far; a panic of dst.Add reaches the caller; after such a call (and after any call) the "
+        "result of the next Parse in the same process - records, reports, the joined error - is a function of its own source "
+        "and destination only (sessions of 2/3 calls, every destination kind: plain Set, FuncSet, HandleSet, DefaultStorage)",
         "NewDefaultStorage(readers...) must equal feeding the readers' records in reader index order whatever the speed of "
         "the readers (first reader slowed by sleeps, the others instant); a reader failing at its end must yield (nil, "
         "error wrapping the reader's error, naming that reader's index when the message carries one)",
@@ -148,6 +152,22 @@ def run(ctx):
     ctx.extra["sources_enumerated"] = npa
     ctx.extra["parse_calls_replayed"] = s2["replayed"]
     ctx.extra["reader_fragmentations"] = s2["fragmentations"]
+
+    # ---- 3b. sessions: a call with a fault (reader error after j lines, Add panicking) followed by calls on unrelated
+    #          sources with every destination kind; every result must be Outcome of its own call (HistoryFree).
+    write_cfg(d / "PaSeq_run.cfg", "SSpec", {"FirstCalls": "<- GenFirst", "LaterCalls": "<- GenLater", "MaxCalls": 2},
+              invariants=["Emit", "HistoryFree", "PositionFree"])
+    ctx.tlc(d, "HostsParseSeqGen", "PaSeq_run.cfg", label="sessions-gen", timeout=1800)
+    nse = count_lines(d / "c08_session_vectors.ndjson")
+    ctx.vh(["c08", "replay-sessions", d / "c08_session_vectors.ndjson", ctx.scratch / "ss.res"], timeout=1800)
+    s6 = ctx.collect(ctx.scratch / "ss.res")
+    if s6["vectors"] != nse:
+        raise CheckerError("replayed %d of %d session vectors" % (s6["vectors"], nse))
+    ctx.evaluations += s6["replayed"]
+    ctx.distinct += s6["distinct_nontrivial"]
+    ctx.traces += s6["vectors"]
+    ctx.extra["sessions_enumerated"] = nse
+    ctx.extra["session_calls_replayed"] = s6["replayed"]
 
     # ---- 4. trace validation
     ctx.vh(["c08", "record-parse", d / "c08_trace.ndjson", ctx.scratch / "rp.res", 300 if q else 2500])
